@@ -52,6 +52,24 @@ pub fn short_scripts() -> Shard {
     Shard { name: "all-scripts-len<=2".into(), scripts: v }
 }
 
+/// P2PK scripts over the secp256k1 generator point in every encoding a library may treat specially: compressed (02),
+/// uncompressed (04), hybrid with the matching parity prefix (06: libsecp256k1 accepts it and re-serialises it as 04),
+/// hybrid with the wrong parity (07), compressed with the wrong parity (03: the other y, also a valid point).
+pub fn generator_key_scripts() -> Vec<(String, Vec<u8>)> {
+    let gx = crate::ser::unhex("79be667ef9dcbbac55a06295ce870b07029bfcdb2dce28d959f2815b16f81798");
+    let gy = crate::ser::unhex("483ada7726a3c4655da4fbfc0e1108a8fd17b448a68554199c47d08ffb10d4b8");
+    let mut v = Vec::new();
+    for (name, prefix, full) in [("g02", 0x02u8, false), ("g03", 0x03, false), ("g04", 0x04, true), ("g06-hybrid", 0x06, true), ("g07-hybrid", 0x07, true)] {
+        let mut k = vec![prefix];
+        k.extend_from_slice(&gx);
+        if full {
+            k.extend_from_slice(&gy);
+        }
+        v.push((format!("p2pk-{}", name), p2pk(&k)));
+    }
+    v
+}
+
 pub fn bitcoin_templates() -> Vec<(String, Vec<u8>)> {
     let mut t: Vec<(String, Vec<u8>)> = Vec::new();
     for (pi, p) in payloads(65).into_iter().enumerate() {
@@ -81,6 +99,7 @@ pub fn bitcoin_templates() -> Vec<(String, Vec<u8>)> {
         s.extend(push_with(form, b"hello world"));
         t.push((format!("opreturn/form{}", form), s));
     }
+    t.extend(generator_key_scripts());
     t
 }
 
@@ -101,6 +120,7 @@ pub fn fork_templates() -> Vec<(String, Vec<u8>)> {
     let (ka, kb, kc) = (key33(1), key65(2), key33(3));
     t.push(("multisig2of3".into(), multisig(2, &[&ka, &kb, &kc], 3)));
     t.push(("opreturn".into(), op_return(b"hello world")));
+    t.extend(generator_key_scripts());
     t
 }
 
@@ -600,6 +620,44 @@ pub fn opreturn_payload_scripts() -> Vec<(String, Vec<u8>)> {
                 s.extend_from_slice(&enc);
                 out.push((format!("len{}:{}:{}:{}", len, d.len(), cname, fname), s));
             }
+        }
+    }
+    // payloads made of particular byte values: NUL only / leading / trailing NUL, control characters and the bytes of common
+    // separators, the replacement character U+FFFD and the BOM (both valid UTF-8), the first and last code point of every
+    // encoded length, and the classic ill-formed sequences (overlong forms, a surrogate, a code point beyond U+10FFFF, 5-byte form)
+    let specials: Vec<(&str, Vec<u8>)> = vec![
+        ("nul", vec![0]),
+        ("nul-x4", vec![0; 4]),
+        ("nul-x80", vec![0; 80]),
+        ("trailing-nul", b"abc\0\0".to_vec()),
+        ("leading-nul", b"\0abc".to_vec()),
+        ("inner-nul", b"ab\0cd".to_vec()),
+        ("del-and-controls", vec![0x7f, 0x01, 0x1b, 0x08, 0x07]),
+        ("crlf", b"line1\r\nline2\n".to_vec()),
+        ("separators", b"a;b,c\"d'e\tf|g".to_vec()),
+        ("only-newline", b"\n".to_vec()),
+        ("only-space", b" ".to_vec()),
+        ("replacement-char", vec![0xef, 0xbf, 0xbd]),
+        ("replacement-char-inside", "Gr\u{fffd}\u{fffd}e aus Z\u{fffd}rich".as_bytes().to_vec()),
+        ("bom", vec![0xef, 0xbb, 0xbf, b'x']),
+        ("u+0080", vec![0xc2, 0x80]),
+        ("u+07ff", vec![0xdf, 0xbf]),
+        ("u+0800", vec![0xe0, 0xa0, 0x80]),
+        ("u+ffff", vec![0xef, 0xbf, 0xbf]),
+        ("u+10000", vec![0xf0, 0x90, 0x80, 0x80]),
+        ("u+10ffff", vec![0xf4, 0x8f, 0xbf, 0xbf]),
+        ("ill-overlong-2", vec![0xc0, 0x80]),
+        ("ill-overlong-3", vec![0xe0, 0x80, 0x80]),
+        ("ill-surrogate", vec![0xed, 0xa0, 0x80]),
+        ("ill-beyond-max", vec![0xf4, 0x90, 0x80, 0x80]),
+        ("ill-5-byte", vec![0xf8, 0x88, 0x80, 0x80, 0x80]),
+        ("ill-fe", vec![b'a', 0xfe, b'b']),
+    ];
+    for (cname, d) in specials {
+        for (fname, enc) in push_forms(&d) {
+            let mut s = vec![0x6a];
+            s.extend_from_slice(&enc);
+            out.push((format!("special:{}:{}:{}", d.len(), cname, fname), s));
         }
     }
     out
